@@ -906,3 +906,38 @@ def run_state_use(P, rep, only=None, rule="R-TABLE.state"):
             rep.viol(rule, site, P.where(fns[0]), "queries state %s; %s (needs %s)" % (sorted(got), why, sorted(want)))
         else:
             rep.ok(rule, site, P.where(fns[0]), "queries State::%s" % sorted(want)[0])
+
+
+# ---------------------------------------------------------------------------------------
+# R-FMT.numeric: zero-filled numbers are right-aligned
+
+def run_fmt_numeric(P, rep, rule="R-FMT.numeric"):
+    """Every format_args! placeholder in strftime.rs that fills with '0' is right-aligned (or uses the `0` flag, which is
+    right-aligned by definition): a left-aligned zero fill turns 5 into "500". Read off the expanded AST, where fill and
+    alignment are explicit (the MIR form of a format template is an opaque byte string)."""
+    sites = [x for x in P.fmts if x["file"].endswith("scalar/datetime/strftime.rs")]
+    if not sites:
+        rep.anchor_missing(rule, "format_args! sites in strftime.rs")
+        return
+    n = 0
+    per_line = {}
+    for x in sorted(sites, key=lambda y: (y["line"], y["tpl_line"])):
+        for k, pc in enumerate(x["pieces"]):
+            if "lit" in pc:
+                continue
+            if pc.get("fill") != "0" and not pc.get("zero_pad"):
+                continue
+            n += 1
+            o = per_line.get("zero-fill", 0)
+            per_line["zero-fill"] = o + 1
+            site = "strftime zero-fill#%d" % o
+            where = "%s:%s" % (x["file"], x["line"])
+            if pc.get("fill") == "0" and pc.get("align") == "Left":
+                rep.viol(rule, site + " left-aligned", where,
+                         "a number is padded with '0' on the RIGHT (`{:0<..}`): 5 prints as `500` — fractional-second and numeric fields lose their leading zeros")
+            elif pc.get("fill") == "0" and pc.get("align") == "Center":
+                rep.viol(rule, site + " centred", where, "a number is zero-filled on both sides")
+            else:
+                rep.ok(rule, site, where, "zero fill on the left (%s)" % ("`0` flag" if pc.get("zero_pad") else "fill '0', align Right"))
+    rep.analysed[rule + ".zero_filled_placeholders"] = n
+    rep.analysed[rule + ".format_sites"] = len(sites)
